@@ -4,6 +4,7 @@ package props
 import (
 	"context"
 	"fmt"
+	"hash"
 	"math/big"
 	"os"
 	"os/exec"
@@ -11,6 +12,7 @@ import (
 	"runtime"
 	"strconv"
 	"strings"
+	"sync/atomic"
 	"time"
 
 	ike "github.com/free5gc/ike"
@@ -360,6 +362,28 @@ func pokeAccessors(v interface{}) {
 	}
 	walk(reflect.ValueOf(v), 0)
 	core.GlobalCount("objects_whose_accessors_were_called")
+	if k, ok := v.(*security.IKESAKey); ok && k != nil {
+		useKeyedMACs(k)
+	}
+}
+
+// useKeyedMACs: the application computes a MAC of its own with the SA's exported, keyed integrity objects - the way
+// the library itself (and the repository's tests) use them: Reset, Write, Sum. The object is left with the written
+// octets buffered (Sum does not reset), which is the state every hash.Hash user must expect to find it in.
+var macUses uint64
+
+func useKeyedMACs(k *security.IKESAKey) {
+	for _, h := range []hash.Hash{k.Integ_i, k.Integ_r} {
+		if h == nil {
+			continue
+		}
+		core.Try(func() {
+			h.Reset()
+			h.Write([]byte(fmt.Sprintf("application self-check over its own octets #%d", atomic.AddUint64(&macUses, 1))))
+			h.Sum(nil)
+		})
+	}
+	core.GlobalCount("sa_integrity_objects_used_directly_by_the_application")
 }
 
 // ---------------------------------------------------------------------------
